@@ -18,7 +18,7 @@ add("C11", "checks/c11_c12_status.c", ["default-asan", "default-plain"], ["defau
     technique="runtime invariant monitor over an explicit-state breadth-first exploration of the real library (snapshot/restore by memory copy) "
               "plus random walks; oracle = the five iff-clauses of the statement on values read back through the public API",
     level_text="exploration by execution: the bounded state spaces named in the rule are enumerated completely on the compiled library "
-               "(quick 16 slices, ~2.7e5 states / 4.7e7 transitions per build; thorough +16 slices of ~1.6e6 states, ~3e9 transitions); "
+               "(quick 16 slices, 3-5e5 states / 5-9e7 transitions per build; thorough +16 slices of 0.8-1.5e6 states each, 1.7-3.2e9 transitions; the larger figures once a full queue sets the device-specific bit); "
                "16-bit values outside the representative bits and longer queues are sampled by random walks (quick 2.5e6, thorough 1.1e8 steps)",
     level_note="exhaustive refers to the bounded alphabets (three representative bits per register, queue capacity 2, listed operations), "
                "not to all 16-bit values; direct writes to STB are excluded by the statement; state identity ignores queue contents "
